@@ -223,6 +223,12 @@ def replay_contract(c, obligation, cex):
         out.setdefault("function", c.qualname)
         out.setdefault("obligation", obligation)
         return out
+    if getattr(c, 'external_kinds_', None):
+        # the function under contract reads the environment (file system, clock, parser library);
+        # the counterexample fixes what those calls return, which a native run cannot reproduce
+        return {"confirmed": None, "function": c.qualname, "obligation": obligation,
+                "note": "no native replay: the counterexample fixes the results of environment calls (%s)"
+                        % ', '.join(sorted(c.external_kinds_)), "inputs": cex}
     if c.qualname.startswith("kmip.services.server.engine.KmipEngine._process_") and \
             c.qualname.rsplit('.', 1)[-1] not in ("_process_batch", "_process_operation", "_process_template_attribute"):
         from . import engine_replay
